@@ -33,9 +33,9 @@ IR_RUNS = {
 }
 IR_LISTENERS = {"C19": "A"}
 IR_RUNS.update({
-    "C11": {"quick": [("MC", "hier_ghost", 1), ("MC", "hier_deep", 0), ("MC", "hier_twice", 0), ("MC", "hier11", 2), ("MC", "hier11", 10, 30), ("MC", "hier_edit", 1), ("MC", "hier_edit", 8, 20),
+    "C11": {"quick": [("MC", "hier_ghost", 1), ("MC", "hier_deep", 0), ("MC", "hier_twice", 0), ("MC", "hier_none", 0), ("MC", "hier11", 2), ("MC", "hier11", 10, 30), ("MC", "hier_edit", 1), ("MC", "hier_edit", 8, 20),
                       ("MC", "hier_walk", 12, 40)],
-            "thorough": [("MC", "hier_ghost", 1), ("MC", "hier_deep", 0), ("MC", "hier_twice", 0), ("MC", "hier11", 4), ("MC", "hier11", 12, 600), ("MC", "hier_edit", 2),
+            "thorough": [("MC", "hier_ghost", 1), ("MC", "hier_deep", 0), ("MC", "hier_twice", 0), ("MC", "hier_none", 0), ("MC", "hier11", 4), ("MC", "hier11", 12, 600), ("MC", "hier_edit", 2),
                          ("MC", "hier_edit", 10, 400), ("MC", "hier_walk", 16, 1500)]},
     "C07": {"quick": [("MC", "clone", 2), ("MC", "clone_top", 1), ("MC", "clone_edit", 0)],
             "thorough": [("MC", "clone", 4), ("MC", "clone", 10, 60), ("MC", "clone_top", 3), ("MC", "clone_edit", 1)]},
